@@ -202,7 +202,7 @@ def prepare(tier, res=None):
         for body in special[fam]:
             asg = dict(f.split(":") for f in body.split("/"))
             cand.append((T.model_key(fam, asg), T.PREFIX[fam] + body, fam))
-        for s, asg in observe.covering_seeds(fam, nseeds):
+        for s, asg in observe.covering_seeds(fam, nseeds) + observe.count_seeds(fam):
             key = T.model_key(fam, asg)
             if key not in [c[0] for c in cand]:
                 cand.append((key, s, fam))
